@@ -627,6 +627,62 @@ def check(ctx):
     if n9 < 4:
         raise AnalysisError('C05.R9 found only %d configuration sites' % n9)
 
+    # ---- R11: known-multiplier strings with a permitted alphabet (X.691 30.5).  N characters need b bits (unaligned) or the next power of two (aligned); the characters keep
+    #      their own values when the largest of them fits in that field, and are numbered 0..N-1 in canonical order otherwise (30.5.4).  The constructor of both variants is
+    #      evaluated (sa/evalexpr.py) on a grid of alphabets; which table it selects and the width it computes are compared with the standard.
+    ctx.rule('C05.R11', 'permitted alphabets: bits per character and the keep-values / renumber decision of X.691 30.5.4, aligned and unaligned (constructor evaluated on a grid of alphabets)')
+    from .. import evalexpr as _ev
+    alphabets = [('"0".."9"', list(range(48, 58))), ('"0".."5"', list(range(48, 54))), ('"a".."z"', list(range(97, 123))), ('"0".."z"', list(range(48, 123))),
+                 ('" ".."~"', list(range(32, 127))), ('codes 0..63', list(range(64))), ('codes 0..127', list(range(128))), ('"a"', [97]), ('"a" | "b"', [97, 98]),
+                 ('codes 0..1', [0, 1]), ('codes 0..15', list(range(16))), ('codes 1..16', list(range(1, 17))), ('300 BMP characters', list(range(0x4e00, 0x4e00 + 300))),
+                 ('codes 0..299', list(range(300))), ('"A".."P"', list(range(65, 81)))]
+    for rel, aligned in ((PER, True), (UPER, False)):
+        kcls = model.mod(rel).classes.get('KnownMultiplierStringType')
+        kinit = kcls.find_method('__init__')[1] if kcls and kcls.find_method('__init__') else None
+        if kinit is None:
+            raise AnalysisError('%s: KnownMultiplierStringType.__init__ vanished' % rel)
+        kp = [p_ for p_ in flow.param_names(kinit) if p_ != 'self']
+        if len(kp) < 5:
+            raise AnalysisError('%s: KnownMultiplierStringType.__init__ has an unexpected signature %s' % (rel, kp))
+        n_ok = n_und = 0
+        bad = None
+        und = ''
+        CLASS = _ev.Obj(encode_map={'class alphabet': 0}, decode_map={0: 'class alphabet'})
+        for label, codes in alphabets:
+            n_ = len(codes)
+            b_ = (n_ - 1).bit_length()
+            if aligned:
+                bits = 0
+                for cand in (0, 1, 2, 4, 8, 16, 32):
+                    if cand >= b_:
+                        bits = cand
+                        break
+            else:
+                bits = b_
+            keep = max(codes) <= 2 ** bits - 1
+            given = _ev.Obj(encode_map={c_: i_ for i_, c_ in enumerate(sorted(codes))}, decode_map={i_: c_ for i_, c_ in enumerate(sorted(codes))})
+            env0 = {kp[0]: 'a', kp[1]: 1, kp[2]: 5, kp[3]: False, kp[4]: given, 'len(%s)' % kp[4]: n_, 'self.PERMITTED_ALPHABET': CLASS, 'len(self.PERMITTED_ALPHABET)': 10 ** 9}
+            try:
+                _r, env_ = _ev.run_function(kinit, env0, skip_super=True)
+            except (_ev.Unsupported, _ev.Raised) as e_:
+                n_und += 1
+                und = und or str(e_)[:90]
+                continue
+            got_bits = env_.get('self.bits_per_character')
+            got_keep = env_.get('self.permitted_alphabet') is CLASS
+            if got_bits == bits and got_keep == keep:
+                n_ok += 1
+            elif bad is None:
+                bad = (label, n_, max(codes), got_bits, got_keep, bits, keep)
+        ctx.instance('C05.R11', '%s::KnownMultiplierStringType.__init__ on %d alphabets (%d undecided)' % (rel, n_ok + (1 if bad else 0), n_und),
+                     'VIOLATION' if bad else ('ok' if n_ok > n_und else 'undecided'), und, nontrivial=n_ok > n_und, node=kinit, file=rel)
+        if bad:
+            label, n_, ub, got_bits, got_keep, bits, keep = bad
+            ctx.violation('C05.R11', rel, kinit, Model.qual(kinit),
+                          'FROM (%s): %d characters, largest value %d -- the type uses %s bits per character and %s; X.691 30.5 prescribes %d bits and %s (the largest value %s 2**%d - 1)'
+                          % (label, n_, ub, got_bits, 'the characters\' own values' if got_keep else 'values renumbered from 0', bits,
+                             'the characters\' own values' if keep else 'values renumbered from 0', 'fits in' if keep else 'exceeds', bits), stmt='permitted alphabet decision')
+
 
 MUTANTS = [
     dict(name='decoder: range <= 255 becomes < 255', file=PER, quick=True,
@@ -674,6 +730,11 @@ MUTANTS = [
 ]
 REFACTORS = []
 
+MUTANTS.append(dict(name='aligned PER compares the size of the unconstrained alphabet with the field', file=PER,
+                    old="        if self.is_largest_character_in_field(permitted_alphabet):\n            self.permitted_alphabet = self.PERMITTED_ALPHABET\n\n    def is_largest",
+                    new="        if len(self.PERMITTED_ALPHABET) < 2 ** self.bits_per_character:\n            self.permitted_alphabet = self.PERMITTED_ALPHABET\n\n    def is_largest", expect='C05.R11'))
+MUTANTS.append(dict(name='unaligned PER always renumbers a permitted alphabet', file=UPER,
+                    old="        if self.is_largest_character_in_field(permitted_alphabet):\n            self.permitted_alphabet = self.PERMITTED_ALPHABET\n", new="", expect='C05.R11'))
 MUTANTS.append(dict(name='uper.Choice index override removed (aligned index in UPER for >= 256 alternatives)', file=UPER,
                     old="""class Choice(per.Choice):
 
